@@ -73,10 +73,15 @@ def replay_history(ctx: Ctx, rec: dict, nops: int):
                 got = write_and_parse(mesh, ctx.tmp, "hist")
                 ref = write_and_parse(build_fresh(exp["fresh"], nops), ctx.tmp, "fresh")
                 ctx.evaluated()
-                if "error" in ref:
-                    raise MachineryError(f"fresh model cannot be written: {ref}")
                 ctxt = "+".join(sorted(set(since))) or "nothing"
-                if "error" in got:
+                if "error" in ref:
+                    # a model that cannot be graded (the operation that takes its cells from a neighbour stands alone)
+                    if ref["error"] != "UndefinedGradingsError":
+                        raise MachineryError(f"fresh model cannot be written: {ref}")
+                    if got.get("error") != ref["error"]:
+                        problems.append((f"write-differs:after:{ctxt}:outcome", f"write #{w} ended with {got.get('error', 'a file')}, "
+                                         f"the fresh model cannot be graded ({ref['error']})"))
+                elif "error" in got:
                     problems.append((f"write-fails:after:{ctxt}:{got['error']}", f"write #{w} raised {got['error']}: {got['msg']}"))
                 else:
                     d = first_diff(got["file"], ref["file"])
